@@ -1,2 +1,3 @@
 import Properties.C18
 import Properties.C15
+import Properties.C14
